@@ -225,7 +225,7 @@ func keysOf(m map[string]bool) []string {
 // ---- systems ----
 
 type scenario struct {
-	Kind     string   `json:"kind"` // single | chain
+	Kind     string   `json:"kind"` // single | chain | takeover
 	N        int      `json:"phases"`
 	Mask     uint     `json:"delegated"`
 	Classes  []string `json:"classes"`
@@ -270,6 +270,11 @@ func system(sc scenario) *world.System {
 			w := osw.NewWorld()
 			if sc.Kind == "single" {
 				w.MustCreate(world.NewObjectSet("r1", osw.PhaseSpecs(osw.B1(sc.N, sc.Mask), 1), world.StdProbes()))
+			} else if sc.Kind == "takeover" {
+				// r2 contains everything r1 has: after the handover r1 controls nothing, so its
+				// archival teardown completes in the very first pass
+				w.MustCreate(world.NewObjectSet("r1", osw.PhaseSpecs([]osw.PhaseCfg{{Name: "p1", Objects: []osw.ObjRef{{Kind: "Widget", Name: "a"}}}}, 1), world.StdProbes()))
+				w.MustCreate(world.NewObjectSet("r2", osw.PhaseSpecs([]osw.PhaseCfg{{Name: "p1", Objects: []osw.ObjRef{{Kind: "Widget", Name: "a"}, {Kind: "Widget", Name: "c"}}}}, 2), world.StdProbes(), "r1"))
 			} else {
 				// handover chain r1{a,b} -> r2{a,c}
 				w.MustCreate(world.NewObjectSet("r1", osw.PhaseSpecs([]osw.PhaseCfg{{Name: "p1", Objects: []osw.ObjRef{{Kind: "Widget", Name: "a"}, {Kind: "Widget", Name: "b"}}}}, 1), world.StdProbes()))
@@ -304,6 +309,9 @@ func scenarios(quick bool) []scenario {
 		{Kind: "single", N: 2, Mask: 0b10, Classes: two, Delete: true, Restarts: 1},
 		{Kind: "chain", N: 1, Classes: two, Archive: true},
 		{Kind: "chain", N: 1, Classes: two, Pauses: 1, Delete: true},
+		// archival interrupted by a crash between any two calls (e.g. finalizer removed, status not yet written)
+		{Kind: "single", N: 2, Mask: 0, Classes: []string{"ready"}, Archive: true, Restarts: 1},
+		{Kind: "takeover", N: 1, Classes: []string{"ready"}, Archive: true, Restarts: 1},
 	}
 	if !quick {
 		out = append(out,
@@ -319,7 +327,7 @@ func scenarios(quick bool) []scenario {
 
 func run(o checks.Opts) *report.Report {
 	rep := report.New("C06", "bfs")
-	rep.Rule = "explicit-state BFS: reconcile(ObjectSets, ObjectSetPhases), workload status changes, user pause/unpause/archive/delete, garbage collector, operator crash before request i; systems: single ObjectSet (2-3 phases, local/delegated) and a two-revision handover chain r1{a,b}->r2{a,c}; monitor on every status write of the ObjectSet controller"
+	rep.Rule = "explicit-state BFS: reconcile(ObjectSets, ObjectSetPhases), workload status changes, user pause/unpause/archive/delete, garbage collector, operator crash before request i; systems: single ObjectSet (2-3 phases, local/delegated) a two-revision handover chain r1{a,b}->r2{a,c}, and a complete takeover r1{a}->r2{a,c} (r1's archival teardown finishes in its first pass) with crashes; monitor on every status write of the ObjectSet controller"
 	scs := scenarios(o.Quick())
 	rep.Bounds["systems"] = len(scs)
 	for i, sc := range scs {
@@ -355,9 +363,9 @@ func init() {
 		},
 		Subs: []*checks.Sub{{Name: "bfs", Shards: func(t string) int {
 			if t == "thorough" {
-				return 10
+				return 12
 			}
-			return 5
+			return 7
 		}, Run: run, Replay: replay, Parallel: true}},
 	})
 }
